@@ -21,7 +21,7 @@ class CycleError(Exception):
 
 class Ref:
     def __init__(self, spec: ModelSpec, dom, P, Y, W, EP=None, delayed=None, ext_inputs=None, edge_mask=(),
-                 zero_default=(), weight_from=None, past=None, innode_delayed=None):
+                 zero_default=(), weight_from=None, past=None, innode_delayed=None, edge_state=None):
         """P(node, op, var) -> value of a constant / input default
         Y(node, op, var) -> current value of a state variable
         W(i) -> weight of edge i (None weight => 1)
@@ -37,6 +37,7 @@ class Ref:
         self.weight_from = dict(weight_from or {})
         self.innode_delayed = dict(innode_delayed or {})   # (node, op, var) -> index of a delayed edge leaving it
         self.past = past        # past(node, op) -> fn(var, delay_value): value of a delayed state variable
+        self.edge_state = edge_state    # edge_state(i, op, var) -> current value of a state variable of edge i's operator
         self._stack = set()
         self._memo = {}
 
@@ -124,12 +125,11 @@ class Ref:
             return v
         return self.W(j) * v
 
-    def _edge_template_value(self, i, src):
+    def _edge_env(self, i, src):
+        """val(opname, var): value of a variable of the operator(s) carried by edge i; src = value of its source"""
         e = self.spec.edges[i]
         tpl = self.spec.edge_tpls[e.template]
         ops = [self.spec.ops[o] for o in tpl.ops]
-        # the unique input not produced inside the edge receives the source
-        outs = {o.output for o in ops}
         ref = self
 
         def val(opname, var):
@@ -137,6 +137,10 @@ class Ref:
             kind, default = o.vars[var]
             if kind == 'const':
                 return ref.EP(i, opname, var)
+            if kind == 'state':
+                if ref.edge_state is None:
+                    raise ValueError('edge operator with a state variable: no edge_state hook')
+                return ref.edge_state(i, opname, var)
             if kind == 'alg':
                 k, ex = o.defined()[var]
                 return X.evaluate(ex, lambda v: val(opname, v), ref.dom)
@@ -153,6 +157,17 @@ class Ref:
                     s = s + t
                 return s
             raise ValueError(f"edge template variable kind {kind} unsupported in reference")
+        return val, ops
+
+    def edge_state_deriv(self, i, opname, var):
+        """right-hand side of the differential equation of a state variable living on edge i"""
+        val, ops = self._edge_env(i, self.edge_source(i))
+        k, ex = self.spec.ops[opname].defined()[var]
+        assert k == 'de'
+        return X.evaluate(ex, lambda v: val(opname, v), self.dom)
+
+    def _edge_template_value(self, i, src):
+        val, ops = self._edge_env(i, src)
         last = ops[-1]
         # output of the edge = output of the operator no other edge operator consumes
         consumed = set()
